@@ -548,7 +548,20 @@ func (fp *FuncProof) houdiniPath(pe *PathEnd, phase string) (changed, kChanged b
 		if allTrue {
 			return changed, kChanged
 		}
-		res, _, vals := fp.query("houdini", hs, qs, gts, values)
+		res, qq, vals := fp.query("houdini", hs, qs, gts, values)
+		if dp := os.Getenv("RJV_DUMPPATH"); dp != "" && dp == fp.fromLabel(pe)+"->"+pe.To.Label {
+			body, _ := qq.Build(0)
+			fmt.Printf(";;;; HOUDINI %s phase=%s iter=%d status=%s\n", dp, phase, iter, res.Status)
+			for k, a := range live {
+				if k < len(vals) {
+					fmt.Printf(";;   goal %s = %s\n", a.Name, res.Values[vals[k]])
+				}
+			}
+			for k := len(live); k < len(values) && k < len(vals); k++ {
+				fmt.Printf(";;   value %s = %s\n", values[k].String()[:min(120, len(values[k].String()))], res.Values[vals[k]])
+			}
+			os.WriteFile(fmt.Sprintf("/tmp/houdini_%s_%d.smt2", phase, iter), []byte(body+"(check-sat)\n(get-model)\n"), 0o644)
+		}
 		if res.Status == "unsat" {
 			return changed, kChanged
 		}
@@ -587,6 +600,9 @@ func (fp *FuncProof) houdiniPath(pe *PathEnd, phase string) (changed, kChanged b
 						tk := tupleKey(tuple)
 						fp.sim.mu.Lock()
 						if !fp.sim.S[pe.To][tk] && len(fp.sim.S[pe.To]) < 400 {
+							if ts := os.Getenv("RJV_TRACE_S"); ts != "" && ts == pe.To.Label {
+								fmt.Printf(";; S[%s] += %v (%s) via %s\n", pe.To.Label, tuple, fp.sim.tab.name(int(tuple[len(tuple)-1])), fp.tracePath(pe))
+							}
 							fp.sim.S[pe.To][tk] = true
 							changed = true
 							progress = true
